@@ -1,7 +1,7 @@
 (* C15: the hand-written unranking model equals, loop by loop, the Gallina translation of the
-   source's loop bodies and conditions (Generated/SrcArith.v, regenerated from /repo on every run). *)
+   source's loop bodies and conditions (Generated/SrcArithC15.v, regenerated from /repo on every run). *)
 From Coq Require Import ZArith List Lia.
-From Batchie Require Import Lib.Sexp Model.Unrank Generated.SrcArith.
+From Batchie Require Import Lib.Sexp Model.Unrank Generated.SrcArithC15.
 Import ListNotations.
 Open Scope Z_scope.
 
